@@ -216,6 +216,10 @@ def generate(tier, seed):
         dom = bool(d.get("dom"))
         steps = []
         live = []
+        # sometimes the role manager is replaced while automatic link building is off and the links are built explicitly
+        swap = rnd.random() < 0.25
+        if swap:
+            steps += ["EB:0", "SR:10"]
         for _ in range(rnd.randint(3, 10)):
             if live and rnd.random() < 0.35:
                 l = rnd.choice(live)
@@ -233,6 +237,8 @@ def generate(tier, seed):
             prs.append(r)
             steps.append(A("p", "p", r))
         reqs = [[s_] + ([dm] if dom else []) + [o, "read"] for s_ in names for dm in (DOMS if dom else [None]) for o in OBJS]
+        if swap:
+            steps += ["BR"] + ([] if rnd.random() < 0.5 else ["EB:1"])
         steps += [Q_e(r) for r in reqs] + ["?ga:p", "?ga:g"]
         cases.append(case("eng", sp, adapter_M([]), "-", steps))
         dist["runtime_built"] += 1
